@@ -17,7 +17,7 @@ def run(tier):
     with Scratch("C02") as scratch:
         binary = build_harness(scratch)
         times = "{0, 50000, 100000, 300000}" if quick else "{0, 40000, 50000, 100000, 300000}"
-        c = cfg({"Times": "TIMES"}, spec="Spec", invariants=["SelectsMedian", "SpanInRange", "EmitCase"]).replace("TIMES", times)
+        c = cfg({"Times": "TIMES"}, spec="Spec", invariants=["SelectsMedian", "SpanInRange", "ProjectedSmall", "EmitCase"]).replace("TIMES", times)
         out, st = run_tlc(scratch, "Daa", c, workers=1, timeout=3000, name="daa")
         tlc_ok(out, st, "Daa")
         p = os.path.join(scratch, "daa_cases.txt")
@@ -90,7 +90,9 @@ def run(tier):
         "distinct_nontrivial": r["cases"],
         "rule": "every assignment of timestamps from the domain to the six endpoint blocks (ties in every position, decreasing, "
                 "far future, negative span): TLC selects the endpoints and the clamped span, the harness builds the chain and "
-                "compares the required bits on the main chain and on a fork; plus real chains, header mutations, bits encodings",
+                "compares the required bits on the main chain, on a fork, and on a chain of one-unit-of-work headers (projected "
+                "work 0, 1 or 2 as the specification says: the cap); plus real chains (also won back after a 2 / 3 header fork "
+                "overtook them), low-work windows at four spacings, header mutations, bits encodings",
         "daa_cases": r["cases"], "clamp_classes": r["clamp_classes"], "cases_with_ties": r["cases_with_ties"],
         "real_headers_accepted": real["real_headers_accepted"], "header_mutations": muts, "bits_encodings": nbits,
         "exhaustive": True,
